@@ -446,6 +446,13 @@ func (e *MetaCDC) Create(req *request.CreateRequest) (resp *request.CreateRespon
 		defer e.collectionNames.Unlock()
 		e.collectionNames.excludeData[uKey] = lo.Without(e.collectionNames.excludeData[uKey], excludeCollectionNames...)
 		e.collectionNames.data[uKey] = lo.Without(e.collectionNames.data[uKey], newCollectionNames...)
+		// the request was accepted, so no other task of this target holds the user role flag: give it back
+		if req.ExtraInfo.EnableUserRole {
+			e.collectionNames.extraInfos[uKey] = model.ExtraInfo{}
+		}
+		for s := range mapCollectionNames {
+			delete(e.collectionNames.nameMapping[uKey], s)
+		}
 	}
 
 	defer func() {
@@ -1440,6 +1447,12 @@ func (e *MetaCDC) delete(taskID string) error {
 	e.collectionNames.Lock()
 	e.collectionNames.excludeData[uKey] = lo.Without(e.collectionNames.excludeData[uKey], info.ExcludeCollections...)
 	e.collectionNames.data[uKey] = lo.Without(e.collectionNames.data[uKey], collectionNames...)
+	if info.ExtraInfo.EnableUserRole {
+		e.collectionNames.extraInfos[uKey] = model.ExtraInfo{}
+	}
+	for s := range GetCollectionMappingFromTaskInfo(info) {
+		delete(e.collectionNames.nameMapping[uKey], s)
+	}
 	e.collectionNames.Unlock()
 
 	e.cdcTasks.Lock()
